@@ -257,7 +257,8 @@ fn sub_on_boundaries(rng: &mut Rng, s: &str) -> String {
         .chain(std::iter::once(s.len()))
         .collect();
     let a = rng.range(0, idx.len() - 1);
-    let maxspan = (idx.len() - 1 - a).min(4);
+    let cap = if rng.chance(1, 10) { 40 } else { 4 };
+    let maxspan = (idx.len() - 1 - a).min(cap);
     let b = a + rng.range(0, maxspan);
     s[idx[a]..idx[b]].to_string()
 }
@@ -436,9 +437,11 @@ impl World for ParserWorld {
             let limit = if rng.chance(1, 3) { TOKENS.len() } else { 22 };
             toks.push(TOKENS[rng.below(limit as u64) as usize]);
         }
-        let max_chars = if thorough { 28 } else { 16 };
+        // occasionally long texts (length thresholds such as 16/32/64/256 bytes in a search loop)
+        let long = rng.chance(1, 24);
+        let max_chars = if long { *rng.pick(&[40usize, 70, 140, 300]) } else if thorough { 28 } else { 16 };
         let mut text = String::new();
-        let pieces = rng.range(0, if thorough { 12 } else { 8 });
+        let pieces = if long { max_chars } else { rng.range(0, if thorough { 12 } else { 8 }) };
         for _ in 0..pieces {
             let t = *rng.pick(&toks);
             if text.chars().count() + t.chars().count() > max_chars && !(t.len() > 16 && text.chars().count() <= 3) {
